@@ -22,7 +22,7 @@
    level-4 table is represented partially (every slot but the recursive one, Paging/RecRefineTop.v),
    the recursive slot is shown untouched.  Partial: RecursivePageTable's clean-up is checked by the
    correspondence, not proved. *)
-From X86 Require Import Paging.Mapped Paging.Tree Paging.TreeProofs Paging.Refine Paging.RefineOps Paging.RefineParent Paging.RefineWalk Paging.RefineHistory Paging.RefineClean Paging.RefineHistoryClean Paging.Recursive Paging.RecResolve Paging.RecRead Paging.RecMap Paging.RecRefineTop Paging.RecRefine Paging.RefineFull Paging.TreeClean Paging.Run.
+From X86 Require Import Paging.Mapped Paging.Tree Paging.TreeProofs Paging.Refine Paging.RefineOps Paging.RefineParent Paging.RefineWalk Paging.RefineHistory Paging.RefineClean Paging.RefineHistoryClean Paging.Recursive Paging.RecResolve Paging.RecRead Paging.RecMap Paging.RecRefineTop Paging.RecRefine Paging.RefineTranslate Paging.RefineFull Paging.TreeClean Paging.Run.
 Open Scope Z_scope.
 
 (* after ANY history from the empty level-4 table, every index path reaches exactly the leaf the
@@ -64,7 +64,7 @@ Theorem C01_translate_page_reads_the_leaf : forall ch idxs k, idxs <> [] ->
   | c :: _ => c < 0
   | [] => False
   end.
-Proof. exact t_translate_page_lookup. Qed.
+Proof. exact TreeProofs.t_translate_page_lookup. Qed.
 Print Assumptions C01_translate_page_reads_the_leaf.
 
 (* an unmap returns the frame stored in the leaf and names the page; the stored leaf holds the
@@ -318,3 +318,34 @@ Theorem C01_recursive_raw_memory_walk_is_history_dictated : forall rootf allocs 
     end.
 Proof. exact recursive_memory_walk_is_history_dictated. Qed.
 Print Assumptions C01_recursive_raw_memory_walk_is_history_dictated.
+
+(* all read paths of the MEMORY models report the leaf the tree reaches: translate and
+   translate_addr (MappedPageTable/OffsetPageTable; never panic: frame + offset < 2^52),
+   translate_page, and the independent hardware-style walk *)
+Theorem C01_memory_read_paths_agree : forall s ch va,
+  rep 4 s ch (root s) -> tframe (root s) ->
+  match lookup ch (idx_list 0 va) with
+  | None =>
+      translate s va = Ok [E_NOT_MAPPED] /\ translate_addr s va = Ok [NONE] /\
+      translate_page s 0 va = [E_NOT_MAPPED] /\ enc_walk (hw_walk s va) = [NONE]
+  | Some (w, n) =>
+      let size := size_of_rem n in
+      let f := leaf_addr w - leaf_addr w mod size in
+      let off := Z.land va (size - 1) in
+      (n <= 2)%nat /\
+      translate s va = Ok [0; size; f; off; e_flags w] /\
+      translate_addr s va = Ok [f + off] /\
+      translate_page s (Z.of_nat n) va =
+        (if leaf_addr w mod size =? 0 then [0; leaf_addr w] else [E_INVALID_FRAME; leaf_addr w]) /\
+      exists wr us, enc_walk (hw_walk s va) = [f + off; size; w; b2z wr; b2z us]
+  end.
+Proof. exact read_paths_agree. Qed.
+Print Assumptions C01_memory_read_paths_agree.
+
+(* RecursivePageTable::translate (every table reached through a recursive address) returns what
+   the tree says, for every address outside the recursive slot - canonical or not *)
+Theorem C01_recursive_translate_reads_the_tree : forall s ch va,
+  0 <= rec_index s < 512 -> repx (rec_index s) s ch -> p4_index va <> rec_index s ->
+  rtranslate s va = Ok (s, t_translate ch va).
+Proof. exact rtranslate_refines. Qed.
+Print Assumptions C01_recursive_translate_reads_the_tree.
